@@ -262,6 +262,21 @@ pub fn apply_fault(project: &Project, dir: &Path, f: &Value) -> bool {
             write_file(&path, &v);
             true
         }
+        "crlf" => {
+            // the file went through a checkout that converts line endings (core.autocrlf): same content for any parser
+            if orig.windows(2).any(|w| w == b"\r\n") || !orig.contains(&b'\n') {
+                return false;
+            }
+            let mut v = Vec::with_capacity(orig.len() + 64);
+            for b in orig {
+                if *b == b'\n' {
+                    v.push(b'\r');
+                }
+                v.push(*b);
+            }
+            write_file(&path, &v);
+            true
+        }
         "missing" => std::fs::remove_file(&path).is_ok(),
         "empty" => {
             write_file(&path, b"");
